@@ -4,7 +4,7 @@
 //# modpath: merkle
 //# assets: mocks models
 //# props: C19 C18 C05
-//# subst: crypto/src/merkle/mod.rs |     collections::{BTreeMap, BTreeSet}, | 
+//# subst: crypto/src/merkle/mod.rs | collections::{BTreeMap, BTreeSet}, | <empty>
 //# attach: crypto/src/merkle/mod.rs | ^mod proofs; | #[cfg(kani)] use utils::verif_models::{BTreeMap, BTreeSet}; #[cfg(not(kani))] use alloc::collections::{BTreeMap, BTreeSet};
 //# subst: crypto/src/merkle/proofs.rs | use alloc::{collections::BTreeMap, vec::Vec}; | use alloc::vec::Vec; #[cfg(kani)] use utils::verif_models::BTreeMap; #[cfg(not(kani))] use alloc::collections::BTreeMap;
 //! C19 / C18 / C05 — Merkle trees, openings and batch proofs.
